@@ -318,7 +318,7 @@ def c15(tier, seed):
             for g in h.get_list_extant_genes():
                 if h.get_gene_by_id(g.unique_id) is not g:
                     bad.append('get_gene_by_id(%r)' % g.unique_id)
-                if g.unique_id.isdigit() and h.get_gene_by_id(int(g.unique_id)) is not g:
+                if g.unique_id.isdigit() and str(int(g.unique_id)) == g.unique_id and h.get_gene_by_id(int(g.unique_id)) is not g:
                     bad.append('get_gene_by_id(int %s)' % g.unique_id)
                 if h.get_dict_extant_genes().get(g.unique_id) is not g:
                     bad.append('dict of extant genes for %s' % g.unique_id)
@@ -340,7 +340,7 @@ def c15(tier, seed):
             for hid, top in h.get_dict_top_level_hogs().items():
                 if h.get_hog_by_id(hid) is not top:
                     bad.append('get_hog_by_id(%r)' % hid)
-                if hid.isdigit() and h.get_hog_by_id(int(hid)) is not top:
+                if hid.isdigit() and str(int(hid)) == hid and h.get_hog_by_id(int(hid)) is not top:
                     bad.append('get_hog_by_id(int %s)' % hid)
             if collections.Counter(map(id, h.get_list_top_level_hogs())) != collections.Counter(map(id, h.get_dict_top_level_hogs().values())):
                 bad.append('list vs dict of top-level hogs')
@@ -365,6 +365,22 @@ def c15(tier, seed):
                             bad.append('get_ancestral_genome_by_mrca_of_genome_set for %r' % g.name)
                         ex.res.count('mrca_lookups')
                         break
+            # common ancestor of arbitrary genome sets (2-4 genomes, nested ones included)
+            allg = h.get_list_extant_genomes() + ags
+            for _ in range(6):
+                if len(allg) < 2:
+                    break
+                sub_ = ex.rng.sample(allg, min(len(allg), ex.rng.randint(2, 4)))
+                want_p = gen.lcp([pathof(x.taxon) for x in sub_])
+                gsn = genomes_of(h)
+                ex.res.count('mrca_set_lookups')
+                try:
+                    got = h.get_ancestral_genome_by_mrca_of_genome_set(set(sub_))
+                    if want_p not in gsn or got is not gsn[want_p]:
+                        bad.append('mrca lookup of %s returned %s, expected the genome at %s' % ([taxS(pathof(x.taxon)) for x in sub_], got.name, taxS(want_p)))
+                except KeyError:
+                    if want_p in gsn and not gsn[want_p].taxon.is_leaf():
+                        bad.append('mrca lookup of %s raised KeyError although %s has a genome' % ([taxS(pathof(x.taxon)) for x in sub_], taxS(want_p)))
             expect_key(h.get_gene_by_id, 'no-such-gene')
             expect_key(h.get_genes_by_external_id, 'no-such-xref')
             expect_key(h.get_hog_by_id, 'no-such-hog')
